@@ -10,14 +10,19 @@
    $setElementOrder) and the others (live-only elements keep their relative order); how the
    strategic-merge library interleaves the two groups is not modelled ([canon]). *)
 From Coq Require Import List String Bool Arith.
-From Helm Require Import Common.Assoc Engine.Cluster Engine.Obj2 Engine.Update2 Run.RunEng.
+From Helm Require Import Common.Assoc Engine.Cluster Engine.Obj2 Engine.Update2 Run.RunEng Text.Split.
 Import ListNotations.
 
 Inductive ostep :=
 | OCreate (rs : list res2)
 | OUpdate (force tw : bool) (cur tgt : list res2)
 | ODelete (rs : list res2)
-| OEdit (key : string) (v : option tree).      (* out-of-band: set / delete one object *)
+| OEdit (key : string) (v : option tree)       (* out-of-band: set / delete one object *)
+| ORecreate (updated : list res2)              (* action.recreate after the update of an upgrade / rollback *)
+| OSplit (text : string) (helm_docs : list string) (decoder_docs : nat).
+    (* a release manifest as text: what the real releaseutil.SplitManifests made of it (documents in order)
+       and how many documents the real Kubernetes YAML stream decoder (the one kube.Client.Build reads
+       with) sees in it; the store is not touched *)
 
 Record oobs := mkOO {
   oo_ok : bool;                                (* observed: no error *)
@@ -63,15 +68,35 @@ Definition omodel (s : ostep) (o : store2) : store2 * bool * list (verb * string
       | [] => (o, false, [], [])
       | _ => let '(o', m) := k2_delete o rs [] in (o', true, m, [])
       end
+  | ORecreate rs => let '(o', m) := k2_recreate o rs in (o', true, m, [])
+  | OSplit _ _ _ => (o, true, [], [])
   | OEdit key (Some v) => (aset key v o, true, [], [])
   | OEdit key None => (adel key o, true, [], [])
   end.
 
-Definition is_edit (s : ostep) : bool := match s with OEdit _ _ => true | _ => false end.
+Definition is_edit (s : ostep) : bool := match s with OEdit _ _ | OSplit _ _ _ => true | _ => false end.
+
+Fixpoint strs_eqb2 (a b : list string) : bool :=
+  match a, b with
+  | [], [] => true
+  | x :: t, y :: u => String.eqb x y && strs_eqb2 t u
+  | _, _ => false
+  end.
+
+(* the model of SplitManifests (C08's Text/Split.v, unchanged) on the same text agrees with the real splitter,
+   and the splitter and the decoder agree on the number of documents *)
+Definition split_ok (s : ostep) : bool :=
+  match s with
+  | OSplit text docs n =>
+      let m := split_manifests text in
+      strs_eqb2 m docs && Nat.eqb (List.length m) n
+  | _ => true
+  end.
 
 Definition ostep_ok (s : ostep) (before : store2) (ob : oobs) : bool :=
   let '(o', ok, m, cr) := omodel s before in
   negb (oo_bad ob)
+  && split_ok s
   && Bool.eqb ok (oo_ok ob)
   && store_agree s o' (oo_objs ob)
   && (is_edit s || muts_eqb (sort_muts m) (sort_muts (oo_muts ob)))
